@@ -989,6 +989,7 @@ class GUIRegisters(ItemMixin):
         "nbt": ArgType.JS_OBJECT,
         "onClick": ArgType.FUNC,
         "onClickAsGUI": ArgType.FUNC,
+        "component": ArgType.COMPONENT,
     },
     name="gui_register",
     defaults={
@@ -997,6 +998,7 @@ class GUIRegisters(ItemMixin):
         "nbt": "",
         "onClick": "",
         "onClickAsGUI": "",
+        "component": "",
     },
 )
 class GUIRegister(ItemMixin):
